@@ -239,7 +239,7 @@ def comparisons(fn):
     return out
 
 
-def resolve_const_edge(fn, tb, maxsteps=8):
+def resolve_const_edge(fn, tb, maxsteps=40):
     """Follow a branch target through the lowering of `a && b` / `a || b`: blocks that assign a constant boolean to a
     temporary and jump to a join block that immediately switches on that temporary.  Returns the block finally reached
     once the outcome no longer follows from constants (tb itself if nothing can be resolved)."""
@@ -281,6 +281,20 @@ def resolve_const_edge(fn, tb, maxsteps=8):
                 cur = t["target"]
                 continue
             return cur
+        if t["k"] in ("call", "drop") and env and t.get("target") is not None:
+            # a call in between (evaluation of the next conjunct's operands) does not change the constants already known,
+            # except for the local it defines
+            if t["k"] == "call":
+                env.pop(t["dest"][0], None)
+                # a known boolean passed by mutable reference could change: drop it
+                for a in t["args"]:
+                    pa = op_place(a)
+                    if pa is not None and pa[0] in env and pa[1]:
+                        env.pop(pa[0], None)
+            if not env:
+                return cur
+            cur = t["target"]
+            continue
         if t["k"] == "switch":
             p = op_place(t["d"])
             if p is not None and not p[1] and p[0] in env:
@@ -300,6 +314,97 @@ def resolve_const_edge(fn, tb, maxsteps=8):
             return cur
         return cur
     return cur
+
+
+def const_edge_rejects(fn, tb, limit=3000):
+    """Does every path that starts with the edge into tb end in a rejecting outcome, given the boolean constants assigned
+    along the way (the lowering of `a && b && ...` stores `false` in a temporary that is tested later)?  Both successors of
+    a switch on an unknown value are explored; a switch on a known constant follows that constant."""
+    rr = fn.reject_region()
+    rk = fn.ret_kind()
+    acc_pts, _rej_pts = fn.accept_points()
+    start_env = ()
+    seen = set()
+    work = [(tb, start_env)]
+    n = 0
+    while work:
+        cur, envt = work.pop()
+        if (cur, envt) in seen:
+            continue
+        seen.add((cur, envt))
+        n += 1
+        if n > limit:
+            return False
+        if cur in rr:
+            continue
+        if cur in acc_pts:
+            return False            # an accepting assignment of the result lies on this path
+        env = dict(envt)
+        for s in fn.stmts(cur):
+            if "lhs" not in s or s["lhs"][1]:
+                continue
+            rv = s["rv"]
+            l = s["lhs"][0]
+            if rv["k"] == "use":
+                k = op_const(rv["a"])
+                p = op_place(rv["a"])
+                if k is not None and k.get("ty") == "bool":
+                    env[l] = bool(const_int(k))
+                elif p is not None and not p[1] and p[0] in env:
+                    env[l] = env[p[0]]
+                else:
+                    env.pop(l, None)
+            elif rv["k"] == "un" and rv["op"] == "Not":
+                p = op_place(rv["a"])
+                if p is not None and not p[1] and p[0] in env:
+                    env[l] = not env[p[0]]
+                else:
+                    env.pop(l, None)
+            else:
+                env.pop(l, None)
+        t = fn.term(cur)
+        k = t["k"]
+        if k == "return":
+            if rk == "bool" and env.get(0) is False:
+                continue            # returns false: rejected
+            return False
+        if k == "goto":
+            work.append((t["target"], tuple(sorted(env.items()))))
+        elif k == "switch":
+            p = op_place(t["d"])
+            if p is not None and not p[1] and p[0] in env:
+                val = env[p[0]]
+                nxt = None
+                for v, b in t["t"]:
+                    if v == "0" and not val:
+                        nxt = b
+                if nxt is None:
+                    nxt = t["o"]
+                work.append((nxt, tuple(sorted(env.items()))))
+            else:
+                for _, b in t["t"]:
+                    work.append((b, tuple(sorted(env.items()))))
+                work.append((t["o"], tuple(sorted(env.items()))))
+        elif k == "call":
+            if callee_match(t, ANYHOW_NOT) and not t["dest"][1]:
+                p = op_place(t["args"][0])
+                if p is not None and not p[1] and p[0] in env:
+                    env[t["dest"][0]] = not env[p[0]]
+                else:
+                    env.pop(t["dest"][0], None)
+            else:
+                env.pop(t["dest"][0], None)
+                for a in t["args"]:
+                    pa = op_place(a)
+                    if pa is not None and pa[0] in env and pa[1]:
+                        env.pop(pa[0], None)
+            if t.get("target") is not None:
+                work.append((t["target"], tuple(sorted(env.items()))))
+        elif k in ("drop", "assert"):
+            if t.get("target") is not None:
+                work.append((t["target"], tuple(sorted(env.items()))))
+        # unreachable / others: path ends without accepting
+    return True
 
 
 def cmp_rejects(fn, comp, info=None):
@@ -351,6 +456,9 @@ def cmp_rejects(fn, comp, info=None):
             continue
         t_in = true_t in rr or resolve_const_edge(fn, true_t) in rr
         f_in = false_t in rr or resolve_const_edge(fn, false_t) in rr
+        if not t_in and not f_in:
+            t_in = const_edge_rejects(fn, true_t)
+            f_in = const_edge_rejects(fn, false_t)
         if t_in and not f_in:
             rel = comp["op"] if pos else NEG[comp["op"]]
             if info is not None:
